@@ -5,6 +5,13 @@
 // compare, and report.
 #pragma once
 
+#include <tao/pegtl/change_action.hpp>
+#include <tao/pegtl/change_action_and_state.hpp>
+#include <tao/pegtl/change_control.hpp>
+#include <tao/pegtl/change_state.hpp>
+#include <tao/pegtl/change_states.hpp>
+#include <tao/pegtl/disable_action.hpp>
+#include <tao/pegtl/enable_action.hpp>
 #include <tao/pegtl/contrib/coverage.hpp>
 #include <tao/pegtl/contrib/parse_tree.hpp>
 #include <tao/pegtl/contrib/state_control.hpp>
@@ -33,6 +40,7 @@ namespace vf
       int eol;
       std::size_t byte0 = 0, line0 = 1, column0 = 1;  // initial counters of the input
       int tree_sel = -1;  // >= 0: this configuration builds a parse tree with selector number tree_sel
+      bool scopes = false;  // C13: run with a root state, check scoping of states / action families / controls
    };
 
    struct gram_entry
@@ -442,6 +450,33 @@ namespace vf
       return run_parse< Top, Action, Control, A, M >( in );
    }
 
+   // change_states< S > needs the action class to provide success(): forward to the state as change_state does
+   template< int ID >
+   struct cs_switch : pegtl::change_states< obs_state< ID > >
+   {
+      template< typename ParseInput, typename... States >
+      static void success( const ParseInput& in, obs_state< ID >& s, States&&... st )
+      {
+         s.success( in, st... );
+      }
+   };
+
+   template< typename Top,
+             template< typename... >
+             class Action,
+             template< typename... >
+             class Control,
+             pegtl::apply_mode A,
+             pegtl::rewind_mode M,
+             pegtl::tracking_mode T,
+             typename Eol >
+   impl_result runner_scopes( const probe& pb )
+   {
+      pegtl::memory_input< T, Eol, const char* > in( pb.begin(), pb.end(), "src" );
+      root_state rs;
+      return run_parse< Top, Action, Control, A, M >( in, rs );
+   }
+
    struct case_t
    {
       std::string input;
@@ -567,7 +602,7 @@ namespace vf
       };
       std::map< std::tuple< int, std::size_t, std::size_t >, mrun > models;
       auto model_for = [ & ]( const cfg_entry& cf ) -> mrun& {
-         const int which = !cf.have_act ? 2 : cf.actions ? 0 : 1;
+         const int which = ( !cf.have_act || cf.scopes ) ? 2 : cf.actions ? 0 : 1;
          const auto key = std::make_tuple( which, cf.byte0, cf.column0 );
          auto it = models.find( key );
          if( it != models.end() ) {
@@ -609,7 +644,8 @@ namespace vf
          pm::machine& mm = *mr.mm;
          m.model = cf.observed ? &mm : nullptr;
          m.check_model = cf.observed;
-         m.check_visited = ge.visited_check;
+         m.check_visited = ge.visited_check && !cf.scopes;
+         m.check_scopes = cf.scopes;
          m.base = pb.begin();
          m.real_end = pb.end();
          m.byte0 = cf.byte0;
@@ -699,7 +735,7 @@ namespace vf
             if( got.k != pm::OK && cf.tree_sel >= 0 && impl_tree() ) {
                vs.push_back( { "C12", "tree-without-success", "a tree was returned although the parse did not succeed" } );
             }
-            if( got.k == pm::OK && cf.observed ) {
+            if( got.k == pm::OK && cf.observed && !cf.scopes ) {
                // C04: surviving action trace == derivation
                const std::vector< pm::event >& wev = mr.ev;
                bool same = wev.size() == m.events.size();
@@ -736,6 +772,15 @@ namespace vf
          }
          else if( prop == "C08" ) {
             nontrivial = nontrivial || m.unwinds > 0 || m.vetoes > 0;
+         }
+         else if( prop == "C13" ) {
+            nontrivial = nontrivial || m.scope_ends_without_success > 0 || m.next_state_serial > 3;
+            if( m.scope_ends_without_success ) {
+               R.cls( "runs-with-a-state-scope-ending-without-success" );
+            }
+            if( m.next_state_serial > 3 ) {
+               R.cls( "runs-with-two-or-more-state-scopes" );
+            }
          }
          else if( prop == "C12" ) {
             nontrivial = nontrivial || ( cf.tree_sel >= 0 && mm.tree_discarded );
